@@ -367,6 +367,13 @@ func (it *Interp) branch(c *Term) bool {
 		alt := append(append([]Decision(nil), it.decisions...), Decision{B: !take})
 		it.newWork = append(it.newWork, alt)
 		it.newModels = append(it.newModels, it.modelWith(d))
+		if it.curInstr != nil {
+			site := it.prog.Fset.Position(it.curInstr.Pos()).String()
+			if b := it.curInstr.Block(); b != nil && !it.curInstr.Pos().IsValid() {
+				site = fmt.Sprintf("%s#%d(%s)", b.Parent().Name(), b.Index, b.Comment)
+			}
+			it.forkSites[site]++
+		}
 	default:
 		it.sawUnknown = true
 		alt := append(append([]Decision(nil), it.decisions...), Decision{B: !take})
@@ -485,6 +492,41 @@ func (it *Interp) concretize(t *Term) uint64 {
 		return v
 	}
 	panic(abortErr{"limit", "concretize: too many values"})
+}
+
+// impliedConst returns a constant if the path condition forces t to a single value (recorded as a
+// decision so that prefix replays do not repeat the query), else t.
+func (it *Interp) impliedConst(t *Term) *Term {
+	if t.IsConst() || t.w == 0 || t.w > 64 {
+		return t
+	}
+	cx := it.ctx
+	if it.pos < len(it.prefix) {
+		d := it.prefix[it.pos]
+		it.pos++
+		it.decisions = append(it.decisions, d)
+		if it.pos == len(it.prefix) {
+			it.establishModel()
+		}
+		if d.B {
+			k := cx.BV(d.V, t.w)
+			cx.LearnEq(t, k)
+			return k
+		}
+		return t
+	}
+	it.pos++
+	v, ok := it.evalT(t)
+	if ok {
+		k := cx.BV(v, t.w)
+		if r, _ := it.feasible(cx.Not(cx.Eq(t, k))); r == "unsat" {
+			it.decisions = append(it.decisions, Decision{B: true, V: v})
+			cx.LearnEq(t, k)
+			return k
+		}
+	}
+	it.decisions = append(it.decisions, Decision{B: false})
+	return t
 }
 
 func (it *Interp) establishModelForce() {
